@@ -99,7 +99,10 @@ def grid(prop, quick, seed=0):
         ranges += ['min=3000 max=3001']
     if prop == 'C01' and not quick:
         ranges += ['min=30000 max=30001']
+    if prop in ('C06', 'C04'):
+        ranges += ['min=9000 max=9001']
     mutsets = ['', 'mut=offbyone,memoindex rate=1.0', 'mut=' + ','.join(MUTS[:5]) + ' rate=1.0',
+               'mut=' + ','.join(MUTS) + ' rate=0.6', 'mut=typeconfusion,offbyone rate=1.0',
                'mut=stringlen,character rate=0.5', 'mut=boundary rate=1.0']
     flags = ['', 'ext=1 buffer=1']
     if prop in ('C04', 'C06', 'C09', 'C10'):
@@ -119,9 +122,13 @@ def grid(prop, quick, seed=0):
     combos = list(itertools.product(range(6), ranges, mutsets, flags))
     # every combination gets a few inputs; the cheap default configuration gets all of them
     for (P, r, m, f) in combos:
+        if 'min=9000' in r and not (P >= 4 and m == '' and f == ''):
+            continue
+        if ('min=3000' in r or 'min=30000' in r) and f != '':
+            continue
         per = inputs if (r == '' and m == '' and f == '' and not quick) else rnd.sample(inputs, 6 if quick else 24)
-        if 'min=30000' in r or 'min=3000' in r:
-            per = per[:2] + ['hex=']
+        if 'min=30000' in r or 'min=3000' in r or 'min=9000' in r:
+            per = ['seed=0', 'seed=1', 'seed=2', 'seed=3', 'hex=', 'hex=ff01']
         for i in per:
             jobs.append(' '.join(x for x in ('P=%d' % P, i, r, m, f) if x))
     return jobs
